@@ -389,6 +389,8 @@ def r20_9(ctx):
 
 
 def run(ctx):
+    ctx.rule("R20.11", "the option -> nearest ancestor select walk examines every ancestor, the root-most included")
+    ctx.guard("R20.11", "ancestor-walk", lambda: r20_11(ctx))
     ctx.rule("R20.10", "the select's selectedcontent is the first such descendant in tree order (depth-first search)")
     ctx.guard("R20.10", "tree-order", lambda: r20_10(ctx))
     ctx.rule("R20.9", "cloning an option into selectedcontent replaces all of the target's children on every path")
@@ -409,3 +411,22 @@ def run(ctx):
     ctx.guard("R20.2", "merge", lambda: r20_2(ctx))
     ctx.guard("R20.3", "search", lambda: r20_3(ctx))
     ctx.guard("R20.4", "nf", lambda: nf_common.nf_rule(ctx, "R20.4", AREA, floor=34))
+
+
+def r20_11(ctx):
+    """the walk from an option up to its nearest ancestor select examines EVERY ancestor, the root-most included: a path that
+    leaves the loop because the current ancestor has no parent has looked at that ancestor first (a select that is the root
+    of a detached subtree is an ancestor like any other)"""
+    key, pcs = nfq.cells(ctx, AREA, "::get_option_element_nearest_ancestor_select")
+    bad = None
+    n = 0
+    for pc in nfq.feasible(pcs):
+        g = pc["guards"]
+        no_parent = [k for k, v in g.items() if v is False and re.search(r"^φ\(.*\)\.parent\(\).*matches Some\(_\)(#\d+)?$", k)]
+        if not no_parent:
+            continue
+        n += 1
+        examined = any(re.search(r"^φ\(.*\)\.data matches Element", k) for k in g)
+        if not examined:
+            bad = "the walk ends at an ancestor without a parent that was never examined (guards %s): a select at the root of a detached subtree is not found" % [k[-60:] for k in g][:2]
+    ctx.ob("R20.11", "ancestor-walk-examines-the-root-most-ancestor", bad is None and n >= 1, bad or "%d exits at a parentless ancestor, each after examining it" % n, "rcdom Node::get_option_element_nearest_ancestor_select")
